@@ -1430,8 +1430,11 @@ class Frame:
                     names = [ast.unparse(x) for x in h.type.elts]
                 else:
                     names = [ast.unparse(h.type)]
-                if names is None or e.exc in names or "Exception" in names or "BaseException" in names \
-                        or (e.exc in ("KeyError", "IndexError") and "LookupError" in names):
+                base_only = e.exc.split(".")[-1] in ("BaseException", "KeyboardInterrupt", "SystemExit", "GeneratorExit", "CancelledError")
+                if names is None or e.exc in names or e.exc.split(".")[-1] in [x.split(".")[-1] for x in names] or ("Exception" in names and not base_only) or "BaseException" in names \
+                        or (e.exc in ("KeyError", "IndexError") and "LookupError" in names) \
+                        or (e.exc in ("OverflowError", "ZeroDivisionError", "FloatingPointError") and "ArithmeticError" in names) \
+                        or (e.exc in ("UnicodeDecodeError", "UnicodeEncodeError", "UnicodeError") and ("ValueError" in names or "UnicodeError" in names)):
                     if h.name:
                         self.env[h.name] = self.I.opaque("exception object")
                     self.exec_block(h.body)
